@@ -111,6 +111,31 @@ def module_io(ctx, mod, md):
         extra['__spline_nu_spline'] = q.nu_spline(ph)
         extra['__spline_B20'] = q2.B20_spline(ph)
         extra['__spline_anon'] = q2.B20_spline(ph)
+        extra['__spline_B20_spline'] = q2.B20_spline(ph)
+    if mod in ('F2C1', 'F2CRes', 'ToRZ'):
+        import copy as _c
+        from qsc.Frenet_to_cylindrical import Frenet_to_cylindrical_1_point, Frenet_to_cylindrical_residual_func
+        q2 = _c.copy(q)
+        r = float(rng.uniform(0.01, 0.1)); th = float(rng.uniform(0, 6.28)); ph0 = float(rng.uniform(0, 2 * np.pi / q.nfp))
+        pt = float(ph0 + rng.uniform(-0.05, 0.05))
+        with Capture({'to_RZ', 'Frenet_to_cylindrical_1_point', 'Frenet_to_cylindrical_residual_func'}) as c3:
+            R_, Z_, P_ = q2.to_RZ([[r, th, ph0]])
+            one = Frenet_to_cylindrical_1_point(ph0, q2)
+            resid = Frenet_to_cylindrical_residual_func(ph0, pt, q2)
+        extra.update(r=r, theta=th, phi0=ph0, phi_target=pt)
+        for nm_ in ('R0_func', 'Z0_func', 'X_spline', 'Y_spline', 'Z_spline', 'normal_R_spline', 'normal_phi_spline', 'normal_z_spline',
+                    'binormal_R_spline', 'binormal_phi_spline', 'binormal_z_spline', 'tangent_R_spline', 'tangent_phi_spline', 'tangent_z_spline'):
+            extra['__spline_' + nm_] = float(getattr(q2, nm_)(ph0))
+        if mod == 'ToRZ':
+            loc = dict(c3.locals.get('to_RZ', {}))
+            extra['__expect__'] = {'R': R_[0], 'Z': Z_[0], 'phi_out': P_[0]}
+        elif mod == 'F2C1':
+            loc = dict(c3.locals.get('Frenet_to_cylindrical_1_point', {}))
+            extra['__expect__'] = {'total_R': one[0], 'total_z': one[1], 'total_phi': one[2]}
+        else:
+            loc = dict(c3.locals.get('Frenet_to_cylindrical_residual_func', {}))
+            extra['__expect__'] = {'residual': resid}
+        extra['__q2__'] = q2
     if mod == 'Axis':
         extra['varphi_cumsum'] = q.varphi / (0.5 * q.d_phi * 2 * np.pi / q.axis_length)
         extra['__fmin__'] = q.min_R0
@@ -142,9 +167,16 @@ def module_io(ctx, mod, md):
     qx = extra.get('__q2__', q)
     for d in md['defs']:
         nm, var = d['name'], d['variant']
-        if var is not None and ((var == 'h0') != hel0):
-            exp[nm] = 'other-branch'
-            continue
+        if var is not None:
+            if var in ('h0', 'hN'):
+                applicable = ((var == 'h0') == hel0)
+            elif mod in ('F2C1', 'F2CRes'):
+                applicable = (var == 'r1') == (q.order == 'r1')
+            else:
+                applicable = (var == q.order)
+            if not applicable:
+                exp[nm] = 'other-branch'
+                continue
         base = nm[:-(len(var) + 1)] if var else nm
         e = None
         if '__expect__' in extra and base in extra['__expect__']:
